@@ -13,3 +13,5 @@ for d in seeded/*/; do
   git -C /repo checkout -- .
 done
 git -C /repo status --short | head -3
+# the evidence files now describe runs on modified trees: put back the committed ones (runs on the unchanged tree)
+git -C /verif checkout -- evidence
